@@ -65,6 +65,8 @@ pub struct PipeState {
     pub reads: u64,
     pub writes: u64,
     pub pending_writes: u64,
+    /// write calls that returned an injected error
+    pub failed_writes: u64,
     pub max_read: usize,
     /// (step, total bytes in buf after the write) for every accepted write
     pub write_log: Vec<(u64, usize)>,
@@ -96,6 +98,7 @@ impl Pipe {
             reads: 0,
             writes: 0,
             pending_writes: 0,
+            failed_writes: 0,
             max_read: usize::MAX,
             write_log: Vec::new(),
             step: 0,
@@ -251,6 +254,9 @@ impl Pipe {
     pub fn end_reported(&self) -> u32 {
         self.0.lock().unwrap().end_reported
     }
+    pub fn failed_writes(&self) -> u64 {
+        self.0.lock().unwrap().failed_writes
+    }
     pub fn writer_stalled(&self) -> bool {
         let st = self.0.lock().unwrap();
         st.writer_waker.is_some() || st.pending_writes > 0 && matches!(st.window, Window::Budget(0))
@@ -310,6 +316,7 @@ impl AsyncWrite for PipeWriter {
             let mut st = self.0 .0.lock().unwrap();
             st.writes += 1;
             if let Some(kind) = st.write_err {
+                st.failed_writes += 1;
                 return Poll::Ready(Err(io::Error::new(kind, "injected write error")));
             }
             if data.is_empty() {
